@@ -29,7 +29,8 @@ def run(ctx):
     return parserprop.run_generic(
         ctx, "C03", "bad-source-map", pred, map_doc,
         ["generic map theorem over the block loop (maps_generic) and the per-rule contracts except hr are not proved yet: carried by the pipeline correspondence (maps are compared) and the predicate on the implementation (partial)"],
-        "correspondence and predicate on: seed corpus, mutations, grammar, and container-prefix x leaf documents with trailing blank lines, EOF with/without LF, lazy continuation, marker-only lines, multi-line definitions, tables; x standard and random configurations (incl. table/code disabled)")
+        "correspondence and predicate on: seed corpus, mutations, grammar, and container-prefix x leaf documents with trailing blank lines, EOF with/without LF, lazy continuation, marker-only lines, multi-line definitions, tables; x standard and random configurations (incl. table/code disabled)",
+        fixed_extra=docs.line_pairs() + docs.line_triples())
 
 
 def replay(body):
